@@ -82,6 +82,14 @@ def exc_isinstance(caught, cv):
     return None
 
 
+OPERATOR_FUNCS = {
+    'operator.and_': ast.BitAnd, 'operator.or_': ast.BitOr,
+    'operator.xor': ast.BitXor, 'operator.add': ast.Add,
+    'operator.sub': ast.Sub, 'operator.mul': ast.Mult,
+    'operator.__and__': ast.BitAnd, 'operator.__or__': ast.BitOr,
+}
+
+
 class BuiltinsMixin(object):
 
     observer = None
@@ -1061,6 +1069,14 @@ class BuiltinsMixin(object):
             return [(path, App('call', fv, Tup(args)))]
         if isinstance(fv, FRef):
             return self.call_function(fv, args, kw, path, node)
+        if isinstance(fv, ERef) and fv.name in OPERATOR_FUNCS and \
+                len(args) == 2 and not kw:
+            # operator.and_(a, b) is a & b ...
+            return self.binop(OPERATOR_FUNCS[fv.name](), args[0], args[1],
+                              path, node)
+        if isinstance(fv, ERef) and fv.name == 'functools.reduce' and \
+                len(args) in (2, 3) and not kw:
+            return self.bi_reduce(args, path, node)
         if isinstance(fv, ERef) and fv.name == 'collections.deque' and \
                 len(args) <= 1 and not kw:
             # a double-ended queue is a list whose order is not modelled
@@ -1394,6 +1410,39 @@ class BuiltinsMixin(object):
                 if (not pol) and ci.is_subclass_of(k):
                     return False
         return None
+
+    def bi_reduce(self, args, path, node):
+        """functools.reduce(f, xs, init) is the loop
+               acc = init
+               for x in xs: acc = f(acc, x)
+        interpreted as that loop (so that it gets the same summary)"""
+        if len(args) == 2:
+            self.inconclusive('reduce without an initial value', node)
+        fr = self.stack_frame_for_synthetic(path)
+        h = path.heap[fr]
+        h.vars['__red_f'], h.vars['__red_xs'], h.vars['__red_acc'] = args
+        loop = ast.parse('for __red_x in __red_xs:\n'
+                         '    __red_acc = __red_f(__red_acc, __red_x)'
+                         ).body[0]
+        ast.copy_location(loop, node)
+        for n in ast.walk(loop):
+            ast.copy_location(n, node)
+        out = []
+        for (q, sig) in self.exec_stmt(loop, fr, path):
+            if isinstance(sig, Raise):
+                out.append((q, sig))
+            else:
+                out.append((q, q.heap[fr].vars['__red_acc']))
+        return out
+
+    def stack_frame_for_synthetic(self, path):
+        fo = path.alloc('frame')
+        h = path.heap[fo.oid]
+        f = self.stack[-1] if self.stack else None
+        h.module = f.module if f is not None else None
+        h.parent = None
+        h.fnode = f.node if f is not None else None
+        return fo.oid
 
     def bi_enumerate(self, args, kw, path, node):
         start = dict(kw).get('start', args[1] if len(args) > 1 else Const(0))
